@@ -46,9 +46,11 @@ class Ctx:
         self.pure = pure
         self.stmts = []
         self.calls_left = calls_left
+        self.in_generic = False        # no inline comptime blocks inside generic bodies (capy: todo!() for comptime inside a generic function)
 
     def sub(self, extra_vars=()):
         c = Ctx(self.vars + list(extra_vars), self.callees, self.pure, self.calls_left)
+        c.in_generic = self.in_generic
         return c
 
 
@@ -93,6 +95,8 @@ def rx(a):
         return f"switch {a[2]} in {rx(a[1])} {{ {arms} }}"
     if t == "block":
         return rblock(a)
+    if t == "ct":           # an inline comptime block (closed: it refers to globals only)
+        return "comptime " + rblock(a[1])
     raise ValueError(t)
 
 
@@ -111,6 +115,8 @@ def rstmt(s):
         return f"{s[1]} : [{rx(s[2])}]i64;"
     if t == "asg":
         return f"{s[1]} = {rx(s[2])};"
+    if t == "sti":
+        return f"{s[1]}[{s[2]}] = {rx(s[3])};"
     if t == "ifs":
         return f"if {rx(s[2])} {s[1]} {rx(s[3])} {{ " + " ".join(rstmt(x) for x in s[4]) + " }"
     raise ValueError(t)
@@ -159,6 +165,8 @@ class Ev:
             env[s[1]] = [0] * self.ex(s[2], env)
         elif t == "asg":
             env[s[1]] = self.ex(s[2], env)
+        elif t == "sti":
+            env[s[1]][s[2]] = self.ex(s[3], env)
         elif t == "ifs":
             if self.cmp(s[1], self.ex(s[2], env), self.ex(s[3], env)):
                 for x in s[4]:
@@ -222,12 +230,14 @@ class Ev:
             raise ValueError("no arm")
         if t == "block":
             return self.block(a, env)
+        if t == "ct":
+            return self.block(a[1], {})
         raise ValueError(t)
 
 
 # --------------------------------------------------------------------------- the program
 
-KIND_WEIGHTS = [("struct", 4), ("enum", 3), ("alias", 3), ("distinct", 1), ("cttype", 1), ("const", 6), ("comptime", 4), ("fn", 7), ("recfn", 1),
+KIND_WEIGHTS = [("struct", 4), ("enum", 3), ("alias", 3), ("distinct", 1), ("cttype", 1), ("const", 6), ("comptime", 4), ("fn", 7), ("recfn", 2),
                 ("genT", 2), ("genN", 2), ("genId", 1), ("tygen", 1), ("fnalias", 1)]
 
 
@@ -292,9 +302,32 @@ class Prog:
             return I64
         return Ty("int", r.pick(BUILTIN_INTS))
 
-    def pick_size(self):
+    def ct_size(self):
+        """-> (n, ast): an inline comptime block usable as an array length / comptime usize argument. It calls pure functions (plain, self- and mutually
+        recursive ones) and reads consts; its value is needed while the body / definition that contains it is type-checked."""
+        r = self.rng
+        ctx = self.pure_ctx(calls=2)
+        e = self.gen_int(ctx, 1)
+        if self.rec and r.chance(2, 3):
+            e = ("bin", "+", e, ("call", r.pick(r.pick(self.rec)), [("lit", r.range(0, 5)), self.small(ctx, 0)]))
+        elif self.pure_fns() and r.chance(1, 2):
+            fs = [n for n in self.pure_fns() if self.fns[n].ret.kind == "i64" and not self.fns[n].ct]
+            if fs:
+                ctx.calls_left = 1
+                e = ("bin", "+", e, self.gen_call(r.pick(fs), ctx, 0))
+        e = ("bin", "+", ("mod", e, 4), ("lit", 1))
+        blk = ("block", ctx.stmts, ("cast", "usize", ("cast", "i64", e)))
+        n = Ev(self, 60000).block(blk, {})
+        return n, ("ct", blk)
+
+    def can_ct(self):
+        return bool(self.rec or self.consts or self.pure_fns())
+
+    def pick_size(self, ct_ok=True):
         """-> (n, size ast)"""
         r = self.rng
+        if ct_ok and self.can_ct() and r.chance(1, 4):
+            return self.ct_size()
         us = self.usize_consts()
         if us and r.chance(3, 4):
             n = r.pick(us)
@@ -367,7 +400,7 @@ class Prog:
         r = self.rng
         ctx.calls_left -= 1
         if f.gkind == "genN":
-            n, size = self.pick_size()
+            n, size = self.pick_size(ct_ok=not ctx.in_generic)
             return ("gcall", fname, [rx(size)], {"n": n}, [self.small(ctx, d)])
         if f.gkind == "genT":
             ty = self.pick_int_ty()
@@ -681,6 +714,9 @@ class Prog:
                 v = self.local("t")
                 ctx.stmts.append(("let", v, "i64", ("toi", ("var", n))))
                 ctx.vars.append((v, I64))
+        if self.can_ct() and not ctx.in_generic and r.chance(1, 3):
+            v = self.inline_ct_array(ctx)
+            ctx.vars.append((v, I64))
         for _ in range(r.below(3)):
             v = self.local("t")
             k = r.below(6)
@@ -702,6 +738,15 @@ class Prog:
             else:
                 ctx.stmts.append(("let", v, "i64", self.small(ctx, 2)))
             ctx.vars.append((v, I64))
+
+    def inline_ct_array(self, ctx):
+        """`a : [comptime { .. }]i64;` + a store to and a read of the last element + `.len`; -> name of the i64 local holding len * 100 + element"""
+        n, size = self.ct_size()
+        a, v = self.local("a"), self.local("t")
+        ctx.stmts.append(("larr", a, size))
+        ctx.stmts.append(("sti", a, n - 1, self.small(ctx, 1)))
+        ctx.stmts.append(("let", v, "i64", ("bin", "+", ("bin", "*", ("len", ("var", a)), ("lit", 100)), ("idx", ("var", a), n - 1))))
+        return v
 
     def gen_fn(self):
         r = self.rng
@@ -771,6 +816,7 @@ class Prog:
         if gkind == "genN":
             params = [("x", I64)]
             ctx = Ctx(params, self.plain_callees(pure), pure, 2)
+            ctx.in_generic = True
             if not pure:
                 ctx.stmts.append(("ev", self.event(), ("var", "x")))
             ctx.stmts.append(("larr", "a", ("var", "n")))
@@ -781,6 +827,7 @@ class Prog:
         elif gkind == "genT":
             params = [("x", "T")]
             ctx = Ctx([], self.plain_callees(pure), pure, 2)
+            ctx.in_generic = True
             ctx.stmts.append(("let", "xi", "i64", ("toi", ("var", "x"))))
             ctx.vars.append(("xi", I64))
             if not pure:
@@ -808,7 +855,8 @@ class Prog:
         elem = self.pick_int_ty()
         n, size = self.pick_size()
         call = f"@{{{g}}}({elem.text}, {rx(size)})"
-        self.add(name, "tyinst", f"{name} :: comptime {call};" if r.chance(1, 2) else f"{name} :: comptime {{ {call} }};")
+        # `comptime V(T, comptime { .. })` without braces ends in an internal error in any order (codegen functions.rs:852 / :724): braces when the size is a block
+        self.add(name, "tyinst", f"{name} :: comptime {call};" if (r.chance(1, 2) and size[0] != "ct") else f"{name} :: comptime {{ {call} }};")
         self.structs[name] = [("buf", Ty("arr", None, elem=elem, n=n, size=size)), ("len", I64)]
         self.struct_tys.append(Ty("struct", f"@{{{name}}}", ref=name))
 
@@ -894,7 +942,8 @@ class Prog:
             n, size = self.pick_size()
             z = self.local("z")
             arr = Ty("arr", None, elem=elem, n=n, size=size)
-            S.append(("let", z, f"comptime {ph}({elem.text}, {rx(size)})", None, {"buf": [0] * n, "len": 0}))
+            call = f"{ph}({elem.text}, {rx(size)})"
+            S.append(("let", z, f"comptime {{ {call} }}" if (size[0] == "ct" or r.chance(1, 3)) else f"comptime {call}", None, {"buf": [0] * n, "len": 0}))
             S.append(("ev", self.event(), ("bin", "+", ("len", ("fld", ("var", z), "buf")), ("fld", ("var", z), "len"))))
 
     def observe(self, e, ty, ctx):
@@ -973,6 +1022,14 @@ class Prog:
         for _ in range(r.range(1, 3)):
             ctx.calls_left = 3
             ctx.stmts.append(("ev", self.event(), self.small(ctx, 2)))
+        if self.can_ct():
+            for _ in range(r.range(1, 2)):
+                ctx.calls_left = 2
+                ctx.stmts.append(("ev", self.event(), ("var", self.inline_ct_array(ctx))))
+            gs = [n for n in self.fn_order if self.fns[n].gkind == "genN"]
+            if gs and r.chance(1, 2):       # an inline comptime block as the comptime argument of a generic
+                n, size = self.ct_size()
+                ctx.stmts.append(("ev", self.event(), ("gcall", r.pick(gs), [rx(size)], {"n": n}, [self.small(ctx, 1)])))
         ctx.calls_left = 1
         ret = ("cast", "i32", ("mod", self.gen_int(ctx, 1), 97))
         body = ("block", ctx.stmts, ret)
